@@ -202,9 +202,11 @@ func (b *UnsafeLinkBuffer) Peek(n int) (p []byte, err error) {
 
 	// multiple nodes
 
-	// try to make use of the cap of b.cachePeek, if can't, free it.
+	// try to make use of the cap of b.cachePeek, if can't, replace it.
+	// the old one may still be referenced by the result of an earlier Peek,
+	// which stays valid until Release, so it is only freed there.
 	if b.cachePeek != nil && cap(b.cachePeek) < n {
-		free(b.cachePeek)
+		b.caches = append(b.caches, b.cachePeek)
 		b.cachePeek = nil
 	}
 	if b.cachePeek == nil {
